@@ -515,6 +515,7 @@ func check(id, tier string) int {
 		var pending []string // scripts to replay natively
 		pendingInfo := map[string]replayScript{}
 		pendingWitness := map[string]bool{}
+		pendingGroup := map[string]string{} // script -> harness+label (alternative counterexamples of one label)
 		for hi := range u.Harnesses {
 			h := &u.Harnesses[hi]
 			b := tierOf(h, tier)
@@ -671,8 +672,20 @@ func check(id, tier string) int {
 					violations++
 					continue
 				}
-				pending = append(pending, p)
-				pendingInfo[p] = rs
+				// sequential: up to three counterexamples of the label are replayed natively; one confirmation suffices
+				group := h.Entry + "\x00" + v.Label
+				for vi, vv := range vs {
+					rsi := rs
+					rsi.Script, rsi.Msg, rsi.Kind = vv.Script, vv.Msg, vv.Kind
+					pi := p
+					if vi > 0 {
+						pi = filepath.Join(replayDir, fmt.Sprintf("%s-%s-%s.json", h.Entry, sanitize(v.Label), scriptHash(rsi)))
+						writeJSON(pi, rsi)
+					}
+					pending = append(pending, pi)
+					pendingInfo[pi] = rsi
+					pendingGroup[pi] = group
+				}
 			}
 		}
 		// native replays of this unit in one go test run
@@ -682,6 +695,7 @@ func check(id, tier string) int {
 				fmt.Printf("INCONCLUSIVE property=%s unit=%s native replay: %v\n", id, u.Name, err)
 				inconclusive = append(inconclusive, "replay "+u.Name)
 			}
+			groupDone := map[string]bool{}
 			for _, p := range pending {
 				rs := pendingInfo[p]
 				r, ok := res[p]
@@ -698,16 +712,35 @@ func check(id, tier string) int {
 					os.Remove(p)
 					continue
 				}
-				if !ok {
-					fmt.Printf("UNCONFIRMED property=%s harness=%s label=%s: no native result\n%s\n", id, rs.Entry, rs.Label, tail(out, 30))
+				grp := pendingGroup[p]
+				if groupDone[grp] {
+					continue // another counterexample of this label was already confirmed
+				}
+				if !ok || !confirms(rs, r) {
+					// is there another candidate of the same label still to come?
+					more := false
+					seenSelf := false
+					for _, q := range pending {
+						if q == p {
+							seenSelf = true
+							continue
+						}
+						if seenSelf && pendingGroup[q] == grp {
+							more = true
+						}
+					}
+					if more {
+						continue
+					}
+					if !ok {
+						fmt.Printf("UNCONFIRMED property=%s harness=%s label=%s: no native result\n%s\n", id, rs.Entry, rs.Label, tail(out, 30))
+					} else {
+						fmt.Printf("UNCONFIRMED property=%s harness=%s label=%s (engine: %s): native outcome=%s failed=%v msg=%s\n  inputs: %s\n", id, rs.Entry, rs.Label, rs.Msg, r.Outcome, r.Failed, r.Msg, compactScript(rs.Script))
+					}
 					unconfirmed++
 					continue
 				}
-				if !confirms(rs, r) {
-					fmt.Printf("UNCONFIRMED property=%s harness=%s label=%s (engine: %s): native outcome=%s failed=%v msg=%s\n  inputs: %s\n", id, rs.Entry, rs.Label, rs.Msg, r.Outcome, r.Failed, r.Msg, compactScript(rs.Script))
-					unconfirmed++
-					continue
-				}
+				groupDone[grp] = true
 				validated++
 				var h *Harness
 				for hi := range u.Harnesses {
